@@ -268,6 +268,15 @@ def _s23(s):
             lab(L), rep(0, It, 'nosuch', I(L)), call('spread', 1, I(L)), call('opt', I(L)), op(None, I(L))]
 
 
+@skeleton('first-statement-is-a-call', 4, lambda s: s[0] != s[1])
+def _s24(s):
+    P, X, It, L = s
+    # the program's first statement is a macro call (no source label at address 0), nested two deep, then a rep; the only label comes last
+    return [mdef('leaf', [P], [X], body=[lab(X), op(None, I(P)), op(I(X), None)]),
+            mdef('outer', [P], body=[call('leaf', I(P)), call('leaf', ('+', I(P), DW))]),
+            call('outer', I(L)), rep(2, It, 'leaf', ('+', I(L), I(It))), lab(L), op(None, I(L))]
+
+
 # skeletons whose programs raise no assembler warning for ANY assignment of the names (on the unchanged tree): they must also assemble
 # with warnings treated as errors, which is the default of the fj command and of the API
 WARNING_FREE = {'arity-overloading', 'dollar', 'globals-and-externs', 'guarded-recursion', 'iterator-like-own-parameter-used-later',
